@@ -4,7 +4,7 @@ CONSTANTS
   Ops = {"o1", "o2"}
   FileOps = {"o2"}
   SrcType = "pipe"
-  MaxPend = 3
+  MaxPend = 2
   MaxH = 5
   ResetProvides = TRUE
   TakeEmptiesSlot = TRUE
